@@ -572,6 +572,7 @@ func (m *Machine) rangeIter(x Value) Value {
 		if s != nil {
 			for i := range s.Keys {
 				it.Order = append(it.Order, i)
+				it.Keys = append(it.Keys, s.Keys[i])
 			}
 		}
 		return it
@@ -631,10 +632,32 @@ func (m *Machine) next(it *RangeIter, in *ssa.Next) Value {
 	}
 	idx := it.Order[k]
 	it.Order = append(it.Order[:k:k], it.Order[k+1:]...)
-	if idx >= len(it.M.Keys) {
-		return m.next(it, in) // entry deleted during iteration
+	// the entry is looked up again by key: one deleted since the iteration started is not visited,
+	// one overwritten is visited with its current value
+	cur := -1
+	if idx < len(it.M.Keys) && identicalKey(it.M.Keys[idx], it.Keys[idx]) {
+		cur = idx // nothing moved
+	} else {
+		cur = m.mapFind(it.M, it.Keys[idx])
 	}
-	return TupleV{c.True, copyVal(it.M.Keys[idx]), copyVal(it.M.Vals[idx])}
+	if cur < 0 {
+		return m.next(it, in)
+	}
+	return TupleV{c.True, copyVal(it.M.Keys[cur]), copyVal(it.M.Vals[cur])}
+}
+
+func identicalKey(a, b Value) bool {
+	switch x := a.(type) {
+	case *smt.Term:
+		y, ok := b.(*smt.Term)
+		return ok && x == y
+	case string:
+		y, ok := b.(string)
+		return ok && x == y
+	}
+	ka, ok1 := keyString(a)
+	kb, ok2 := keyString(b)
+	return ok1 && ok2 && ka == kb
 }
 
 // chooseOpen is choose() for alternatives that are exclusive but not exhaustive.
